@@ -46,6 +46,7 @@ type Clients struct {
 	total  int
 	outstandingVerify []int
 	restoreOn         *Node // see loop()
+	transferTo        *Node // see loop()
 	active int
 	probeN int
 }
@@ -145,6 +146,16 @@ func (c *Clients) loop(cl int) {
 		}
 		// operation placed inside another one: a Restore on the server that has just sent TimeoutNow
 		// for a leadership transfer (armed by the network stub when TimeoutNow is delivered)
+		// ... and a leadership transfer to the follower that has just installed a snapshot (its log
+		// may end far below the snapshot it now holds)
+		if t := c.transferTo; t != nil && !w.quiet {
+			if inc.r.State() == raft.Leader && t.inc != nil && t.inc.alive && t != inc.node {
+				kind = "transfer"
+				w.stats.probe("transfer_to_follower_that_just_installed_a_snapshot")
+			} else {
+				c.transferTo = nil
+			}
+		}
 		if n := c.restoreOn; n != nil && !w.quiet {
 			c.restoreOn = nil
 			if n.inc != nil && n.inc.alive && n.inc.r != nil {
@@ -260,7 +271,13 @@ func (c *Clients) do(cl int, kind string, inc *Inc) *Call {
 	case "transfer", "transfer-any":
 		call.Kind = "transfer"
 		anyTarget := kind == "transfer-any"
+		forced := c.transferTo
+		c.transferTo = nil
 		run = func() error {
+			if forced != nil {
+				call.Arg = string(forced.id)
+				return r.LeadershipTransferToServer(forced.id, forced.addr).Error()
+			}
 			if anyTarget || w.ch.Choose(simrt.SWork, 2) == 0 {
 				return r.LeadershipTransfer().Error()
 			}
